@@ -278,7 +278,7 @@ def isIfs : Stmt → Bool
 mutual
   def wfS : Stmt → Bool
     | .block ss => wfL ss
-    | .ifs _ _ thn els => wfL thn && wfE els
+    | .ifs init _ thn els => !optIsYield init && wfL thn && wfE els
     | .switch init _ cases => !optIsDefine init && wfC cases
     | .for_ init _ _ body => !optIsDefine init && wfL body
     | _ => true
@@ -507,7 +507,9 @@ mutual
     | .ifs init c thn els, isLast, cur, hw, hc => by
         simp only [wfS, Bool.and_eq_true] at hw
         simp only [rwStmt]
-        refine Ok.bind (rwStmts_total q hq thn _ hw.1 (ready_mk0 (.inr (.inr (.inl rfl))))) (fun body _ => ?_)
+        have hny : ¬ (optIsYield init = true) := by simpa using hw.1.1
+        rw [if_neg hny]
+        refine Ok.bind (rwStmts_total q hq thn _ hw.1.2 (ready_mk0 (.inr (.inr (.inl rfl))))) (fun body _ => ?_)
         refine Ok.bind (rwElse_total q hq els hw.2) (fun e _ => ?_)
         refine Ok.bind (ifPush_total init c thn els body e hc) (fun cur' hcur' => ?_)
         split
@@ -617,7 +619,9 @@ mutual
     | .ifs init c thn els, cur, _, hw, hc => by
         simp only [wfS, Bool.and_eq_true] at hw
         simp only [rwIfS]
-        refine Ok.bind (rwStmts_total q hq thn _ hw.1 (ready_mk0 (.inr (.inr (.inl rfl))))) (fun body _ => ?_)
+        have hny : ¬ (optIsYield init = true) := by simpa using hw.1.1
+        rw [if_neg hny]
+        refine Ok.bind (rwStmts_total q hq thn _ hw.1.2 (ready_mk0 (.inr (.inr (.inl rfl))))) (fun body _ => ?_)
         refine Ok.bind (rwElse_total q hq els hw.2) (fun e _ => ?_)
         exact ifPush_total init c thn els body e hc
     | .simple _, _, h, _, _ => by cases h
@@ -1059,6 +1063,8 @@ mutual
     | .ifs init c thn els, isLast, cur, hw, hc => by
         simp only [nftS, Bool.and_eq_true] at hw
         simp only [rwStmt]
+        split
+        · exact OkIf.bind OkIf.throw (fun _ (h : False) => h.elim)
         refine OkIf.bind (rwStmts_nf q thn _ hw.1 (nf_mk0 _)) (fun body hbody => ?_)
         refine OkIf.bind (rwElse_nf q els hw.2) (fun e he => ?_)
         refine OkIf.bind (ifPush_nf init c thn els body e hw.1 hw.2 hbody he hc) (fun cur' hcur' => ?_)
@@ -1144,6 +1150,8 @@ mutual
     | .ifs init c thn els, cur, hw, hc => by
         simp only [nftS, Bool.and_eq_true] at hw
         simp only [rwIfS]
+        split
+        · exact OkIf.bind OkIf.throw (fun _ (h : False) => h.elim)
         refine OkIf.bind (rwStmts_nf q thn _ hw.1 (nf_mk0 _)) (fun body hbody => ?_)
         refine OkIf.bind (rwElse_nf q els hw.2) (fun e he => ?_)
         exact ifPush_nf init c thn els body e hw.1 hw.2 hbody he hc
@@ -1176,7 +1184,7 @@ end
 mutual
   def srcS : Stmt → Bool
     | .block ss => srcL ss
-    | .ifs _ _ thn els => srcL thn && srcE els
+    | .ifs init _ thn els => !optIsYield init && srcL thn && srcE els
     | .switch _ _ cases => srcC cases
     | .for_ _ _ _ body => srcL body
     | _ => true
@@ -1211,7 +1219,7 @@ mutual
     | .ifs _ _ thn els, h => by
         simp only [srcS, Bool.and_eq_true] at h
         simp only [p0Stmt, wfS, Bool.and_eq_true]
-        exact ⟨p0Stmts_wf thn h.1, p0Else_wf els h.2⟩
+        exact ⟨⟨h.1.1, p0Stmts_wf thn h.1.2⟩, p0Else_wf els h.2⟩
     | .switch init _ cases, h => by
         simp only [srcS] at h
         have hc := p0Cases_wf cases h
